@@ -71,9 +71,10 @@ int main(int argc, char** argv) {
       Problem P; bool nozero = false;
       int fam = r.below(100);
       bool ok;
-      if (fam < 40) ok = make_problem(r, P);
-      else if (fam < 65) ok = make_multi(r, P);
-      else if (fam < 80) ok = make_singular(r, P);
+      if (fam < 38) ok = make_problem(r, P);
+      else if (fam < 62) ok = make_multi(r, P);
+      else if (fam < 74) ok = make_singular(r, P);
+      else if (fam < 82) ok = make_param(r, P);
       else { ok = make_nozero(r, P); nozero = true; }
       if (!ok) continue;
       if (P.m == 0) { delete P.sys; continue; }
